@@ -9,7 +9,8 @@ META = {
             'entity kind; one evaluation = one post-request table dump joined '
             'for dangling references + the DELETE status rule; distinct = '
             '(refusal kind | cascade class) actually exercised with a '
-            'reference at stake',
+            'reference at stake'
+            ' plus a concurrent part: the C05-C07 scenario catalogue (and provider-tree races) run under the transaction-granularity scheduler, the same oracle evaluated on every committed state / committing step of every explored interleaving',
     'floors': {'refusals_due': 5, 'cascades_nontrivial': 1,
                'concurrent_states_checked': 100},
     'assumptions': ['SQLite backend', 'sequential histories + committed-'
